@@ -254,7 +254,7 @@ def c10(tier):
 MOUNT_STUB = "_ZNK3DFS20StorageConfiguration5mountERKNS_14VolumeSelectorE=stub_mount"
 W_CMDS = "w_cmds.cc"
 W_EXTRACT = "w_extract.cc"
-CMD_UNWIND = [("collect_nums", 200), ("h_cmd_free.0", 200), ("h_cmd_space.0", 200), ("h_cmd_free", 12), ("h_cmd_space", 12), ("X_strlen", 64), ("X_mem", 16), ("vf_ostream3num", 24), ("make_disc", 4), ("cout_num", 200), ("realloc_insert", 6), ("vf_rb", 6), ("Rb_tree", 6)]
+CMD_UNWIND = [("collect_nums", 200), ("h_cmd_free.0", 200), ("h_cmd_space.0", 200), ("h_cmd_free", 12), ("h_cmd_space", 12), ("X_strlen", 64), ("X_mem", 16), ("vf_ostream3num", 24), ("make_disc", 4), ("cout_num", 200), ("realloc_insert", 6), ("vf_rb", 6), ("Rb_tree", 6), ("vf_s_copy", 33), ("vf_s_set", 33), ("vf_mem", 33)]
 def ob_cmd_free(pid, entries=2):
     return X.cxx_ob(pid, "cmd_free.E%d" % entries, W_CMDS, "h_cmd_free", "CommandFree::invoke on an in-memory Acorn DFS drive with a symbolic well-formed catalogue: "
                     "prints free/used files, sectors (hex) and bytes with used = max(catalogue sectors, highest file end)",
@@ -274,15 +274,18 @@ def c14(tier):
     es = (0, 2) if tier == "quick" else (0, 1, 2, 3)
     return [ob_cmd_free("C14", e) for e in es] + [ob_cmd_space("C14", e) for e in es], dict(assumptions=CXX_ASSUME)
 
-def ob_extract_paths(pid):
-    return X.cxx_ob(pid, "extract_paths", W_EXTRACT, "h_extract_paths", "CommandExtractFiles::invoke on an in-memory drive with one catalogued file whose 8 name/directory bytes are arbitrary: "
-                    "every host file opened lies directly inside the destination directory", "7 name bytes + directory byte symbolic, destination with/without trailing slash",
+def ob_extract_paths(pid, tag="out", dest="out"):
+    return X.cxx_ob(pid, "extract_paths." + tag, W_EXTRACT, "h_extract_paths", "CommandExtractFiles::invoke on an in-memory drive with one catalogued file whose 8 name/directory bytes are arbitrary: "
+                    "every host file opened lies directly inside the destination directory", "7 name bytes + directory byte symbolic, destination %r (constant per query)" % dest,
                     ["dfs/cmd_extract_files.cc:CommandExtractFiles::invoke", "create_inf_file", "CatalogEntry::name", "stringutil::rtrim"],
-                    unwind=10, unwindset=CMD_UNWIND + [("h_extract_paths", 20)], weight_gb=10, timeout=1500, noop_re=EXC_CTORS, replace=[MOUNT_STUB],
+                    unwind=10, unwindset=CMD_UNWIND + [("h_extract_paths", 20)], weight_gb=10, timeout=1500, noop_re=EXC_CTORS + IO_CUT,
+                    defines=("NDEBUG", 'DEST="%s"' % dest) + tuple(x for x in os.environ.get('VF_DEBUG_DEFS','').split(',') if x), cdefines=[x for x in os.environ.get("VF_DEBUG_CDEFS","VF_STR_SMALL=32").split(",") if x],
+                    replace=[MOUNT_STUB, "_ZNK3DFS12CatalogEntry25visit_file_body_piecewiseERNS_10DataAccessESt8functionIFbPKhS5_EE=stub_visit"],
                     stubs=["std::ofstream modelled by harness/cxx/iomodel.h (records the path of every file opened)"])
 @prop("C12")
 def c12(tier):
-    return [ob_extract_paths("C12")], dict(assumptions=CXX_ASSUME)
+    dests = [("out", "out"), ("d_slash", "d/")] if tier == "quick" else [("out", "out"), ("out_slash", "out/"), ("d", "d"), ("d_slash", "d/")]
+    return [ob_extract_paths("C12", t, d) for t, d in dests], dict(assumptions=CXX_ASSUME)
 
 def ob_hexdump(pid, n):
     return X.cxx_ob(pid, "hexdump.n%d" % n, W_TRACK, "h_hexdump", "hexdump_bytes row format (offset, 8 hex cells, ** padding, printable column); stream flags restored",
